@@ -39,6 +39,29 @@ def body_effects(f):
             dst = sy.operand(t["args"][0])
             if is_repr_mut_of_self(dst) and const_value(sy.operand(t["args"][1])) == 0:
                 fills.append(i)
+    # the same clearing written as a loop: `for m in self.representation_mut().iter_mut() { *m = 0 }` - every element the iterator
+    # yields is overwritten with 0 before the next one is taken, and the loop ends only when the iterator does
+    for nb, nt in f.calls():
+        if not callee_of(nt).endswith("::next") or not nt["args"]:
+            continue
+        src = strip(sy.origin(strip(sy.operand(nt["args"][0]))))
+        while src[0] == "call" and src[1].split("::")[-1] in ("into_iter", "iter_mut") and src[2]:
+            inner = strip(src[2][0])
+            if src[1].split("::")[-1] == "iter_mut" and (is_repr_mut_of_self(inner) or (inner[0] == "cast" and is_repr_mut_of_self(inner[1]))):
+                src = ("ok",)
+                break
+            src = strip(sy.origin(inner)) if inner[0] in ("local", "ref") else inner
+        if src != ("ok",):
+            continue
+        latches = [b for b in f.live if nb in f.lsuccs(b) and f.dominates(nb, b)]
+        zero = []
+        for i, j, s in f.stmts():
+            if s["s"] == "assign" and s["lhs"]["p"] and s["rv"]["r"] == "use" and const_value(sy.operand(s["rv"]["a"])) == 0:
+                tgt = canon(strip(sy.place(s["lhs"])))
+                if re.search(r"Iterator>?::next\(", tgt):
+                    zero.append(i)
+        if latches and zero and all(any(f.dominates(z, b) for z in zero) for b in latches):
+            fills.append(nb)
     accs = []
     for i, j, s in f.stmts():
         if s["s"] != "assign":
@@ -85,6 +108,7 @@ def clear_before_accumulate(ctx, prog):
             e = body_effects(f)
             if e:
                 eff[f.path] = e
+                ctx.visit(f)   # classified from its whole body (every store to the masks / every fill)
     accs = [p for p, e in eff.items() if e == "acc"]
     clears = [p for p, e in eff.items() if e == "clear"]
     ctx.ob(R, "an accumulating initialiser and a mask clearer exist (inferred from bodies)", bool(accs) and bool(clears),
